@@ -446,6 +446,27 @@ func TrickyCases(rng *rand.Rand, prefix string) []Case {
 		b.f.Services = []svcdesc.Service{{Name: sn, Methods: ms}}
 		out = append(out, b.build("tricky:service-named-"+sn, "either", describe(ms)))
 	}
+	// a local message and an imported message with the same name, both the response of a call type with a promise object
+	for v := 0; v < 3; v++ {
+		n++
+		b := newBuilder(rng, fmt.Sprintf("%s%d", prefix, n))
+		b.dep = &svcdesc.File{Name: b.id + "/dep/dep.proto", Package: b.pkg + "dep", GoPackage: b.gopkg + "/dep", Messages: []svcdesc.Message{msg("Response"), msg("Request")}}
+		b.f.Deps = append(b.f.Deps, b.dep.Name)
+		in, rep := b.addMsg("Request"), b.addMsg("Response")
+		drep := "." + b.dep.Package + ".Response"
+		var ms []svcdesc.Method
+		switch v {
+		case 0:
+			ms = []svcdesc.Method{{Name: "A", In: in, Out: rep, Opts: svcdesc.Opts{Quorumcall: true, Async: true}}, {Name: "B", In: in, Out: drep, Opts: svcdesc.Opts{Quorumcall: true, Async: true}}}
+		case 1:
+			ms = []svcdesc.Method{{Name: "A", In: in, Out: drep, Opts: svcdesc.Opts{Correctable: true}}, {Name: "B", In: in, Out: rep, Opts: svcdesc.Opts{Correctable: true}}}
+		default:
+			ms = []svcdesc.Method{{Name: "A", In: in, Out: rep, Opts: svcdesc.Opts{Correctable: true}, ServerStream: true}, {Name: "B", In: in, Out: drep, Opts: svcdesc.Opts{Correctable: true}, ServerStream: true},
+				{Name: "Q", In: in, Out: drep, Opts: svcdesc.Opts{Quorumcall: true}}, {Name: "Q2", In: in, Out: rep, Opts: svcdesc.Opts{Quorumcall: true}}}
+		}
+		b.f.Services = []svcdesc.Service{{Name: "Svc", Methods: ms}}
+		out = append(out, b.build("tricky:same-named-local-and-imported-response", "either", describe(ms)))
+	}
 	mk("only-plain-rpc", func(b *builder) []svcdesc.Method {
 		in := b.addMsg("Req")
 		out := b.addMsg("Rep")
